@@ -357,7 +357,6 @@ def eval_cmp(case):
         cls = owner(probe, '_elementwise_compare')
     except Exception:
         cls = 'Vector'
-    dunder = CMPNAME[SWAP[op]] if refl else CMPNAME[op]
     # one key per code path: only _Date dispatches on the operand kind (vector / scalar operands)
     if cls == '_Date' and form in ('vv', 'vs', 'sv'):
         s = f'{cls}.compare.{tag}-{FORMNAME[form]}'
